@@ -22,7 +22,12 @@ import (
 	"time"
 )
 
-const verifDir = "/verif"
+var verifDir = func() string {
+	if d := os.Getenv("VERIF_ROOT"); d != "" {
+		return d
+	}
+	return "/verif"
+}()
 
 type propCfg struct {
 	Level     string
